@@ -42,7 +42,8 @@ def check_decision(model, rep):
             if isinstance(n, ast.Attribute) and isinstance(n.ctx, ast.Store) and model.mangle('Solver', n.attr) == flag:
                 writers.append(mem)
                 break
-    deciders = [w for w in writers if w.name not in ('__init__', 'run')]
+    pure = SolverIR.state_deciders(model)
+    deciders = [w for w in writers if w.name not in ('__init__', 'run') and w.name in pure]
     if len(deciders) != 1:
         rep.cannot('C13.lock-table', 'Solver', f'expected one method deciding the lock flag, found {[w.name for w in deciders]}')
         return flag
@@ -93,7 +94,12 @@ def check_decision(model, rep):
                 rep.decide(ok, 'C13.only-if', f'Solver.{dec.name}', 'the flag is set to True on a path that does not test '
                            'Powertrain.self_locking (a powertrain without a self-locking mating could be clamped)',
                            loc=f'{dec.module}:{e[4]}')
-    other = [w.name for w in writers if w.name not in ('__init__', 'run', dec.name)]
+    def only_clears(mem):
+        # an initialiser: every assignment to the flag in it is the constant False (e.g. a fresh-start helper)
+        vals = [n.value for n in ast.walk(mem.node) if isinstance(n, ast.Assign)
+                and any(isinstance(t, ast.Attribute) and model.mangle('Solver', t.attr) == flag for t in n.targets)]
+        return all(isinstance(v, ast.Constant) and v.value is False for v in vals)
+    other = [w.name for w in writers if w.name not in ('__init__', 'run', dec.name) and not only_clears(w)]
     rep.decide(not other, 'C13.only-if', 'Solver:flag-writers', f'the lock flag is also written by {other}', loc=dec.loc)
     return flag
 
